@@ -516,7 +516,8 @@ func (c *fctx) dumpInstr(b *ir.BasicBlock, ins ir.Instruction, vid int) string {
 		if ins.Heap {
 			h = "1"
 		}
-		attrs = []string{h}
+		// the source position identifies the variable (lift.go's "split alloc" inherits it)
+		attrs = []string{h, strconv.Itoa(int(ins.Pos()))}
 	case *ir.Phi:
 		kind = "phi"
 		ops = c.ops(ins.Edges...)
